@@ -196,3 +196,53 @@ def stats_matrix(seed: int, n: int) -> List[List[dict]]:
             interval(b, s, base, reps, extra)
         out.append(b)
     return out
+
+
+def death_during_manager_msg(seed: int, n: int) -> List[List[dict]]:
+    """a subscriber of manager-originated messages (CLIENT_INFO / CLIENT_CLOSED / FAILED_MESSAGE /
+    TIMING / ACK copies) is dead when the manager publishes one; the other subscribers of that message
+    must get it intact, exactly one CLIENT_CLOSED for the victim, and the notices about it."""
+    out = []
+    notice = (32, 33, 8)
+    for v_logger in (0, 1):
+        for trigger in ("connect", "ready", "setname", "leave", "drop", "timing", "subscribe", "publish"):
+            for wcase in ("all", "m1-not-writable", "second-dead"):
+                b = []
+                cast = [("m1", 2, 0), ("m2", 3, 0), ("v", 4, v_logger), ("p", 5, 0), ("q", 6, 0)]
+                names = [c for c, _, _ in cast]
+                for c, mid, lg in cast:
+                    b += [opn(c), rnd(c)]
+                for c, mid, lg in cast:
+                    b += [snd(c, con2(mid, 0, c, lg=lg))]
+                b += [rnd("", names, names)]
+                for c, mid in (("m1", 2), ("m2", 3), ("v", 4)):
+                    for t in notice + (80,):
+                        b += [snd(c, sub(15, mid, t)), rnd("", [c], names)]
+                b += [snd("v", sub(15, 4, 1234)), snd("q", sub(15, 6, 1234)), rnd("", ["v", "q"], names)]
+                b += [{"a": "Die", "c": "v"}]
+                if wcase == "second-dead":
+                    b += [{"a": "Die", "c": "m2"}]
+                W = [c for c in names if not (wcase == "m1-not-writable" and c == "m1")]
+                if trigger == "connect":
+                    b += [opn("n"), rnd("n"), snd("n", con2(0, 1, "new")), rnd("", ["n"], W + ["n"])]
+                elif trigger == "ready":
+                    b += [snd("p", {"k": "f", "t": 26, "src": 5, "dst": 0, "dhost": 0, "p": {"k": "rdy", "pid": 99}}), rnd("", ["p"], W)]
+                elif trigger == "setname":
+                    b += [snd("p", {"k": "f", "t": 34, "src": 5, "dst": 0, "dhost": 0, "p": {"k": "name", "name": "renamed"}}), rnd("", ["p"], W)]
+                elif trigger == "leave":
+                    b += [{"a": "Fin", "c": "p"}, rnd("", ["p"], W)]
+                elif trigger == "drop":
+                    b += [snd("p", data(1234, 5, 0, 0, 1)), rnd("", ["p"], [c for c in W if c != "q"])]
+                elif trigger == "timing":
+                    b += [{"a": "Tick", "n": 3}, rnd("", [], [])]
+                elif trigger == "subscribe":
+                    b += [snd("p", sub(15, 5, 777)), rnd("", ["p"], W)]
+                elif trigger == "publish":
+                    b += [snd("p", data(1234, 5, 0, 0, 2)), rnd("", ["p"], W)]
+                # afterwards everybody alive is still served
+                pub, pid = ("q", 6) if trigger == "leave" else ("p", 5)
+                b += [snd(pub, data(1234, pid, 0, 0, 3)), rnd("", [pub], names)]
+                out.append(b)
+    if n and n < len(out):
+        out = random.Random(seed).sample(out, n)
+    return out
